@@ -97,7 +97,7 @@ func genC15(c *Ctx) error {
 		}
 	}
 	c.Notes["stub_methods_classified"] = it.NumMethod()
-	c.Notes["rule"] = "scripted query bodies of 1-6 steps drawn from every mutating stub operation (put, put-empty, delete, event, validation parameter, private data put/delete/purge/validation parameter) and reads; query without a sender (direct call) and with a sender (direct call and as a task of executeTasks), with an access-control answer that does / does not carry changed-key transactions; on the task route a third of the queries share their request with a read-only transaction of a bystander, half of these under the same task id; the same bodies in a query method of a gRPC service registered through the gRPC router (the repository's sample BalanceService, METHOD_TYPE_QUERY), through the call context's stub and the contract's; plus every query function of the base contract and base token with valid and invalid arguments. A query is also run overlapping a transaction on the same instance (forced switch between the query's start and its first use of the stub), in a young process and in one that has used more than a million goroutine ids. For half of the sender-less direct queries also the values their reads returned are compared (the committed ones, whatever the body attempted before reading). Observed: the complete write set, event and private-data / validation-parameter attempts the simulated peer received for that invocation, and whether the committed ledger changed. Non-trivial: the body attempts at least one mutating operation."
+	c.Notes["rule"] = "scripted query bodies of 1-6 steps drawn from every mutating stub operation (put, put-empty, delete, event, validation parameter, private data put/delete/purge/validation parameter) and reads; query without a sender (direct call) and with a sender (direct call and as a task of executeTasks), with an access-control answer that does / does not carry changed-key transactions; on the task route a third of the queries share their request with a read-only transaction of a bystander, half of these under the same task id; the same bodies in a query method of a gRPC service registered through the gRPC router (the repository's sample BalanceService, METHOD_TYPE_QUERY), through the call context's stub and the contract's; plus every query function of the base contract and base token with valid and invalid arguments. A query is also run overlapping a transaction on the same instance (forced switch between the query's start and its first use of the stub), in a young process and in one that has used more than a million goroutine ids. For half of the sender-less direct queries also the values their reads returned are compared (the committed ones, whatever the body attempted before reading). Observed: the complete write set, event and private-data / validation-parameter attempts the simulated peer received for that invocation, and whether the committed ledger changed. Non-trivial: the body attempts at least one mutating operation. Plus queries sent to chaincodes whose ledger holds no configuration but what older releases may have left behind (initialisation arguments and a configuration under other keys)."
 	rng := c.Rng
 	w := NewWorld()
 	if _, err := w.AddToken("TT", ChanOpts{}); err != nil {
@@ -342,6 +342,40 @@ func genC15(c *Ctx) error {
 			term := fmt.Sprintf("mkCase QDirect %s false [] %s %s", coqBool(cc.Router().AuthRequired(m)), intsTerm(eff), coqBool(!stateEqual(before, ch)))
 			c.Emit(term, map[string]interface{}{"library_query": fn, "args": args, "status": res.Status, "effects": eff}, false)
 			c.Count("library_query")
+		}
+	}
+	// ledgers without a stored configuration that hold what older releases may have left behind (the arguments of an
+	// initialisation under several names, a configuration under another key): a query is refused or answered, and
+	// changes nothing here either
+	for _, chName := range []string{"ct", "nft", "curusd", "otf", "tt"} {
+		cc2, err := core.NewCC(&HToken{})
+		if err != nil {
+			return err
+		}
+		w.Peer.AddChannel(chName+"-old", cc2)
+		ch2 := w.Peer.Channels[chName+"-old"]
+		ch2.CCName, ch2.ChannelID = chName, chName
+		want := map[string]int{"ct": 4, "nft": 3, "curusd": 5, "otf": 4, "tt": 3}[chName]
+		pos := []string{"platformski", w.Robot.SKI}
+		for len(pos) < want {
+			pos = append(pos, []string{w.Issuer.AddrString(), w.AdminAcc.AddrString(), w.FeeSet.AddrString()}[len(pos)%3])
+		}
+		posJSON, _ := json.Marshal(pos)
+		cfgJSON := w.ConfigJSON(strings.ToUpper(chName), ChanOpts{})
+		for _, k := range []string{"__init", "init", "__args", "__init_args", "args"} {
+			ch2.State[k] = posJSON
+		}
+		for _, k := range []string{"config", "__config_old", "__cfg", "__config.bak"} {
+			ch2.State[k] = []byte(cfgJSON)
+		}
+		for _, q := range [][]string{{"metadata"}, {"balanceOf", plain.AddrString()}, {"balanceOf", "x"}, {"sym"}, {"getNonce", plain.AddrString()}, {"documentsList"}, {"qScript", "put,k,v"}} {
+			before := stateSnapshot(ch2)
+			res, _ := w.Peer.Simulate(chName+"-old", w.Peer.NextTxID(), w.Client.Creator, false, strArgs(q[0], q[1:]))
+			w.Peer.Commit(chName+"-old", res)
+			eff := effectsOf(res, "")
+			term := fmt.Sprintf("mkCase QDirect false false [] %s %s", intsTerm(eff), coqBool(!stateEqual(before, ch2)))
+			c.Emit(term, map[string]interface{}{"query_on_unconfigured_ledger_with_leftovers": q, "channel": chName, "status": res.Status, "message": res.Message, "effects": eff}, false)
+			c.Count("query_on_unconfigured_ledger_with_leftovers")
 		}
 	}
 	return nil
